@@ -118,6 +118,8 @@ def explore_session(ctx, n_events, n_inject, hold=9, kinds=None, inject_kinds=('
                     peer.teardown(4)
                 elif what == 'reestablish':
                     peer.reestablish()
+                elif what == 'remove':
+                    peer.remove()          # the neighbor left the configuration (Reactor.reload) or `peer delete`
                 elif what == 'incoming':
                     class Incoming(P.FakeConn):
                         direction = 'incoming'
@@ -191,8 +193,11 @@ def judge_fsm(ctx, run):
 CORE_KINDS = ['open', 'keepalive', 'update', 'notification', 'eof']
 
 
-def h_session(ctx, n_events, n_inject, hold=9, attempts=1, kinds=None, auto_as=False):
-    run = explore_session(ctx, n_events, n_inject, hold, kinds=kinds, attempts=attempts, auto_as=auto_as)
+def h_session(ctx, n_events, n_inject, hold=9, attempts=1, kinds=None, auto_as=False, inject_kinds=None):
+    kw = {'inject_kinds': inject_kinds} if inject_kinds else {}
+    run = explore_session(ctx, n_events, n_inject, hold, kinds=kinds, attempts=attempts, auto_as=auto_as, **kw)
+    if any(what == 'remove' and st == 'ESTABLISHED' for what, _, st in run.injected):
+        ctx.cover('removed-while-established')
     if run.attempts > 1:
         ctx.cover('reconnected')
         if [t for t in run.world.fsm].count(('OPENCONFIRM', 'ESTABLISHED')) > 1:
@@ -210,6 +215,9 @@ def units(tier):
     # negotiated Hold Time 0 (no keepalive timers): the OPENCONFIRM -> ESTABLISHED step must still wait for the peer's KEEPALIVE
     us.append(Unit('session/e3-i0-h0', lambda ctx: h_session(ctx, 3, 0, hold=0), must_cover=('established', 'never-established'), max_paths=300000, max_seconds=600, weight=30))
     us.append(Unit('session/auto-as-e3-i0', lambda ctx: h_session(ctx, 3, 0, auto_as=True), must_cover=('established', 'never-established'), max_paths=300000, max_seconds=600, weight=30))
+    # the neighbor is removed (de-configured) at a solver-chosen point: the session ends like any other (transport closed, API told)
+    us.append(Unit('session/e3-remove', lambda ctx: h_session(ctx, 3, 1, kinds=CORE_KINDS, inject_kinds=('remove',)), must_cover=('established', 'removed-while-established'),
+                   max_paths=300000, max_seconds=600, weight=30))
     # several connection attempts of one Peer (what Peer.run() does): state that outlives a session (stats, API up/down)
     us.append(Unit('attempts/e6-a3', lambda ctx: h_session(ctx, 6, 0, attempts=3, kinds=CORE_KINDS), must_cover=('established', 'reconnected', 'established-twice'),
                    max_paths=300000, max_seconds=600, weight=60))
